@@ -44,6 +44,10 @@ def check(model: Model, rep: Report, tier: str):
     with rep.isolated():
         a11(model, rep, "C07.A11")
     from .c08 import s2
+    from .c10 import t2 as _t2
+    with rep.isolated():
+        share_rule(rep, model, _t2, "C07.A15", "per qubit the acquisition indices of library circuits increase with the measurement start time: the library builders schedule every "
+                   "later measurement of a qubit FOLLOWED_BY what precedes it on that qubit (= C10.T2), never JOINED to an earlier measurement")
     from .c06 import u1 as _u1
     with rep.isolated():
         share_rule(rep, model, _u1, "C07.A14", "after unrolling, the measurements of a block repeated n times (at any nesting depth) are listed n times: apply_modifiers_to_self "
